@@ -45,6 +45,8 @@ class ClassHooks(Hooks):
                 return "name"
         if isinstance(obj, tuple) and obj and obj[0] == "ctor" and attr == "__name__":
             return "cls"
+        if isinstance(obj, (int, float, bool)) or obj is None or (is_sym(obj) and not z3.is_string(obj)):
+            raise Raise("AttributeError")   # numbers have no data attributes
         raise Unsupported(f"attribute {attr} of {obj!r}")
 
     # ---- calls
